@@ -449,7 +449,22 @@ func c11Stability(c core.Case, res *core.Result) {
 			}
 			defer w.Delete()
 			var held []c11Held
+			// decoded blocks are held as well: what Decode returned must still equal what was encoded
+			// after further encodings and decodings (a decoder whose result aliases a pooled buffer)
+			type heldDec struct{ got, want []types.Entry }
+			var heldD []heldDec
 			verify := func() {
+				for _, h := range heldD {
+					checked.Add(1)
+					if d := c11SameList(h.got, h.want); d != "" {
+						mu.Lock()
+						if firstBad == "" {
+							firstBad = fmt.Sprintf("Data.Decode: the decoded entries changed after later encodings/decodings while %d goroutines were working: %s", G, d)
+						}
+						mu.Unlock()
+					}
+				}
+				heldD = heldD[:0]
 				for _, h := range held {
 					checked.Add(1)
 					if !bytes.Equal(h.live, h.clone) {
@@ -479,6 +494,15 @@ func c11Stability(c core.Case, res *core.Result) {
 					d := table.Data{Entries: es}
 					if b, err := d.Encode(); err == nil {
 						hold("Data.Encode", b)
+						var back table.Data
+						if back.Decode(b) == nil && c11SameList(back.Entries, es) == "" {
+							want := make([]types.Entry, len(es))
+							for k, e := range es {
+								want[k] = e
+								want[k].Value = bytes.Clone(e.Value)
+							}
+							heldD = append(heldD, heldDec{back.Entries, want})
+						}
 					}
 				case 1:
 					idx := table.Index{Entries: []table.IndexEntry{{StartKey: es[0].Key, EndKey: es[len(es)-1].Key, DataHandle: table.BlockHandle{Offset: 1, Length: 2}}}}
@@ -510,7 +534,7 @@ func c11Stability(c core.Case, res *core.Result) {
 					}
 				}
 				active.Add(-1)
-				if len(held) >= 1+r.Intn(6) {
+				if len(held)+len(heldD) >= 1+r.Intn(6) {
 					verify()
 				}
 			}
